@@ -1,6 +1,7 @@
 """Replay for C02: drive the real replay-buffer classes through bounded
 operation histories (capacity from the counter-model when small, plus 1..4)
-against the property's list-based reference model."""
+against the property's list-based reference model.  Obligations of the multi-task
+wrapper (name contains "MultiTaskReplayBuffer") are checked by _multitask.run_multitask."""
 import os
 import sys
 
@@ -55,8 +56,21 @@ def run(cls, N, steps, rng):
     return None
 
 
+def multitask(p):
+    """obligations of the multi-task wrapper (contracts/multitask.py): bounded native check of the same
+    clauses on the real MultiTaskReplayBuffer over real ReplayBuffer / LAP / PrioritizedReplayBuffer instances"""
+    from _multitask import run_multitask
+
+    w, stats = run_multitask(p.get("obligation", ""), budget_s=40.0, prefer_n=(lambda v: v + 1 if isinstance(v, int) else None)(model_of(p).get("n_tasks_minus_1")))
+    if w:
+        done(True, w)
+    done(False, None, note="multi-task wrapper: directed scenarios and seeded random histories (1..3 tasks, capacities 1..3, uniform / LAP / PER task buffers) all satisfy the reference model", stats=stats)
+
+
 def main():
     p = load()
+    if "MultiTaskReplayBuffer" in p.get("obligation", ""):
+        multitask(p)
     m = model_of(p)
     caps = [1, 2, 3, 4]
     for k, v in m.items():
